@@ -91,6 +91,7 @@ type world struct {
 	node  gen.Node
 	mu    sync.Mutex
 	ev    []Event
+	nterm int // application Terminate callbacks logged so far (never reset)
 	apps  []*appInst
 	extra sync.Map // pid -> true: every process the harness members spawned (children)
 }
@@ -98,7 +99,16 @@ type world struct {
 func (w *world) log(e Event) {
 	w.mu.Lock()
 	w.ev = append(w.ev, e)
+	if e.K == 2 {
+		w.nterm++
+	}
 	w.mu.Unlock()
+}
+
+func (w *world) terms() int {
+	w.mu.Lock()
+	defer w.mu.Unlock()
+	return w.nterm
 }
 
 func (w *world) takeEvents() []Event {
@@ -244,6 +254,10 @@ func (m *member) HandleMessage(from gen.PID, message any) error {
 			return errBoom
 		}
 	case busyMsg:
+		<-x.gate
+	case holdMsg:
+		// hold.go: stay inside the handler until released, then go on normally
+		close(x.in)
 		<-x.gate
 	case busyDieMsg:
 		close(x.in)
